@@ -46,12 +46,27 @@ def obs_ints(track):
 def observe_all(mf):
     """everything the property names: merged_track, iteration (seconds), length, saved bytes"""
     res = {}
+    def scribble(ms):
+        """what was handed out belongs to the caller: edit it (time and a value), the file must not notice"""
+        for m in ms:
+            try:
+                m.time = (m.time or 0) + 17
+                if m.type == 'note_on':
+                    m.velocity = (m.velocity + 1) % 128
+                elif m.type == 'set_tempo':
+                    m.tempo = m.tempo ^ 1
+            except Exception:  # noqa: BLE001
+                pass
     try:
-        res['merged'] = [(m.time, repr(m)) for m in mf.merged_track]
+        mt = mf.merged_track
+        res['merged'] = [(m.time, repr(m)) for m in mt]
+        scribble(mt)
     except Exception as e:  # noqa: BLE001
         res['merged'] = type(e).__name__
     try:
-        res['iter'] = [(m.time, repr(m.copy(time=0))) for m in mf]
+        ms = list(mf)
+        res['iter'] = [(m.time, repr(m.copy(time=0))) for m in ms]
+        scribble(ms)
     except Exception as e:  # noqa: BLE001
         res['iter'] = type(e).__name__
     try:
@@ -256,7 +271,7 @@ def run(out):
     out.rule = ('%d histories of 2-16 documented edits on one MidiFile (tracks.append, del tracks[i], add_track(), track.insert, del track[j], msg.time = t, msg.velocity / msg.tempo / msg.pitch = v (incl. edits between values with equal hashes: pitch -1/-2, time 0/2**61-1), '
                 'type, ticks_per_beat) interleaved with observations; at each observation merged_track is compared with the model, and merged_track, '
                 'iteration, length, play and the saved bytes are compared with a freshly built MidiFile holding a deep copy of the same contents; the order of '
-                'the first observation (length / iteration / merged_track) is varied. Non-trivial: every history; distinct by content.' % len(cases))
+                'the first observation (length / iteration / merged_track) is varied; the messages an observation hands out are edited by the caller (the file must not change). Non-trivial: every history; distinct by content.' % len(cases))
     out.sample({'component': 'history', 'case': cases[0]})
     out.sample({'component': 'history', 'case': cases[10][:50]})
     core.kernel_crosscheck(out, [(COMP_HIST, c) for c in rng.sample(cases, 100)], 'C16')
